@@ -24,6 +24,8 @@ enum Ev {
     Send(Vec<u8>),
     /// let what was sent so far reach the client as a chunk of its own before going on
     Pause(u64),
+    /// create the supplier's tmp directory now (it did not exist when the download began)
+    MakeTmpDir,
     Close,
 }
 
@@ -34,6 +36,9 @@ struct Server {
     tx: mpsc::Sender<Ev>,
     log: Arc<Mutex<Vec<String>>>,
 }
+/// tmp directory of the supplier talking to the server on this port (for `Ev::MakeTmpDir`)
+static TMP_DIRS: Mutex<std::collections::BTreeMap<u16, PathBuf>> = Mutex::new(std::collections::BTreeMap::new());
+
 fn start_server() -> Server {
     let l = std::net::TcpListener::bind("127.0.0.1:0").expect("bind loopback");
     let port = l.local_addr().unwrap().port();
@@ -65,6 +70,11 @@ fn start_server() -> Server {
                         let _ = c.flush();
                     }
                     Ok(Ev::Pause(ms)) => std::thread::sleep(Duration::from_millis(ms)),
+                    Ok(Ev::MakeTmpDir) => {
+                        if let Some(p) = TMP_DIRS.lock().unwrap().get(&port) {
+                            let _ = std::fs::create_dir_all(p);
+                        }
+                    }
                     Ok(Ev::Close) => break,
                     Err(_) => break 'conn,
                 }
@@ -353,6 +363,22 @@ fn scenarios(tier: Tier) -> Vec<Scenario> {
             v.push(sc);
         }
     }
+    // the tmp directory does not exist when the download begins and appears in the middle of it: caching was given up
+    // at the start, so nothing may be cached (never a part of the file)
+    for k in [1usize, BODY.len() / 2, BODY.len() - 1] {
+        for framing in ["content-length", "chunked"] {
+            let head = if framing == "chunked" { head_chunked() } else { head_cl(BODY.len()) };
+            let part = |b: &[u8]| if framing == "chunked" { chunk_frame(b) } else { b.to_vec() };
+            let mut events = vec![Ev::Send(head), Ev::Send(part(&BODY[..k])), Ev::Pause(25), Ev::MakeTmpDir, Ev::Pause(5), Ev::Send(part(&BODY[k..]))];
+            if framing == "chunked" {
+                events.push(Ev::Send(b"0\r\n\r\n".to_vec()));
+            }
+            events.push(Ev::Close);
+            let mut sc = base("tmp-dir-appears-mid-download", Kind::Symbols, vec![Script { label: format!("200 {framing}, {k} bytes, pause, the tmp directory is created, the rest"), events, delivered: Some(BODY.to_vec()) }]);
+            sc.broken_dirs = 2;
+            v.push(sc);
+        }
+    }
     // two servers: the first fails in some way, the second delivers
     let second_body: Vec<u8> = [BODY, b"PUBLIC 9000 0 from_second_server\n"].concat();
     let firsts: Vec<Script> = vec![script_status(404), script_status(500), script_cut("content-length", BODY, 60), script_cut("chunked", BODY, 100), {
@@ -429,6 +455,9 @@ impl RunResult {
 fn run_once(kind: &Kind, scripts: &[Script], cancel_after: Option<usize>, cache: &Path, tmp: &Path, timeout_ms: u64) -> (RunResult, Vec<Vec<String>>, Vec<String>) {
     let servers: Vec<Server> = scripts.iter().map(|_| start_server()).collect();
     let urls: Vec<String> = servers.iter().map(|s| s.url()).collect();
+    for s in &servers {
+        TMP_DIRS.lock().unwrap().insert(s.port, tmp.to_path_buf());
+    }
     let supplier = Arc::new(HttpSymbolSupplier::new(urls.clone(), cache.to_path_buf(), tmp.to_path_buf(), vec![], Duration::from_millis(timeout_ms)));
     let polls = Arc::new(AtomicU64::new(0));
     let res = RT.with(|rt| {
@@ -491,6 +520,7 @@ fn run_once(kind: &Kind, scripts: &[Script], cancel_after: Option<usize>, cache:
     drop(supplier);
     let logs: Vec<Vec<String>> = servers.iter().map(|s| s.log.lock().unwrap().clone()).collect();
     for s in servers {
+        TMP_DIRS.lock().unwrap().remove(&s.port);
         s.stop();
     }
     (res, logs, urls)
@@ -770,7 +800,7 @@ fn main() {
         let mut def = CheckDef::new(
             "C16",
             "fault_enumeration",
-            "every scenario of a finite script space is run against the real HttpSymbolSupplier over loopback TCP: connection cut after EVERY byte count of the body under content-length / chunked / close-delimited framing; every two-chunk split; 1-byte and 7-byte trickles; each line corrupted; missing final newline; whole lines, a pause, part of the next line, close (the partial line arrives as a chunk of its own); a body with its own INFO URL line; a line longer than the parser window; error and redirect statuses; stall until the client timeout; client future dropped after each server event (at several split points) once the client has quiesced; pre-existing cache entry; unusable cache / tmp directories; two servers (first fails in 5 ways); failure-then-success histories; a file-size quota (RLIMIT_FSIZE in sandboxed workers) that cuts the cache copy at every byte from 0 to body + note (inside the body, exactly at its end, inside the note); the same cuts and cancellations for opaque file downloads (binary, extra debug info). After each run cache/ and tmp/ are walked; after each success a fresh supplier with a dead server reloads from the cache. distinct_nontrivial = distinct (scenario class, outcome, cache file count, tmp file count, cached size).",
+            "every scenario of a finite script space is run against the real HttpSymbolSupplier over loopback TCP: connection cut after EVERY byte count of the body under content-length / chunked / close-delimited framing; every two-chunk split; 1-byte and 7-byte trickles; each line corrupted; missing final newline; whole lines, a pause, part of the next line, close (the partial line arrives as a chunk of its own); a body with its own INFO URL line; a line longer than the parser window; error and redirect statuses; stall until the client timeout; client future dropped after each server event (at several split points) once the client has quiesced; pre-existing cache entry; unusable cache / tmp directories; a tmp directory that appears in the middle of the download; two servers (first fails in 5 ways); failure-then-success histories; a file-size quota (RLIMIT_FSIZE in sandboxed workers) that cuts the cache copy at every byte from 0 to body + note (inside the body, exactly at its end, inside the note); the same cuts and cancellations for opaque file downloads (binary, extra debug info). After each run cache/ and tmp/ are walked; after each success a fresh supplier with a dead server reloads from the cache. distinct_nontrivial = distinct (scenario class, outcome, cache file count, tmp file count, cached size).",
         );
         def.assumptions = vec![
             "poll boundaries inside hyper/tokio are owned by the runtime and are not enumerated; cancellation points are 'after each server event, once the client made no progress for 20 ms' (the awaits of fetch_symbol_file: send(), each chunk())".into(),
